@@ -3,6 +3,7 @@ mod cnfgen;
 mod cnfstream;
 mod compstream;
 mod optstream;
+mod querystream;
 mod ordstream;
 mod tdstream;
 mod upstream;
@@ -66,6 +67,7 @@ fn main() {
             "cnf" => cnfstream::cnf_lines(&mut rng, idx, maxvars, maxops),
             "opt" => optstream::opt_lines(&mut rng, maxvars, maxops),
             "comp" => vec![compstream::comp_line(&mut rng, maxvars)],
+            "query" => vec![querystream::query_line(&mut rng, maxvars, maxops)],
             "ring" => ringstream::ring_lines(&mut rng, idx),
             "tbl" => vec![tblstream::tbl_line(&mut rng, maxops)],
             "lru" => vec![tblstream::lru_line(&mut rng, maxops)],
